@@ -451,6 +451,19 @@ impl Run {
 
 /// Greedy shrinker for enumerated/fuzzed character sequences: delete characters, then replace
 /// by 'a', as long as `fails` stays true.
+/// `s` copied into `buf` behind k filler bytes and in front of two more: the returned view has the same content as `s` but starts k
+/// bytes after an allocation boundary (every residue of the pointer modulo 16 for k = 0..16) and does not end at the end of the buffer
+pub fn view_at<'a>(buf: &'a mut String, s: &str, k: usize) -> &'a str {
+    buf.clear();
+    buf.reserve(s.len() + k + 2);
+    for _ in 0..k {
+        buf.push('#');
+    }
+    buf.push_str(s);
+    buf.push_str("@@");
+    &buf[k..k + s.len()]
+}
+
 /// run `f` when the calling thread ends, from the destructor of a thread-local value (a caller may use the library from such a place)
 pub fn at_thread_exit(f: Box<dyn FnOnce()>) {
     struct ExitHooks(std::cell::RefCell<Vec<Box<dyn FnOnce()>>>);
